@@ -25,7 +25,7 @@ import (
 type Variant struct {
 	Name        string
 	NewStub     func() any
-	Build       func(stub any, guard func(ctx context.Context, obj any, next graphql.Resolver, tag *string) (any, error)) graphql.ExecutableSchema
+	Build       func(stub any, guard func(ctx context.Context, obj any, next graphql.Resolver, tag *string) (any, error), stamp func(ctx context.Context, obj any, next graphql.Resolver) (any, error)) graphql.ExecutableSchema
 	Models      map[string]reflect.Type
 	Abstract    map[string]reflect.Type
 	SetBlobHook func(func(op, s string) error)
@@ -87,7 +87,7 @@ func nilable(t reflect.Type) bool {
 func New(w *core.World, v *Variant, plan *refexec.Plan) *Uni {
 	u := &Uni{W: w, V: v, Plan: plan, Park: true, bind: map[string]refexec.Binding{}, retType: map[string]reflect.Type{}}
 	u.Stub = v.NewStub()
-	u.ES = v.Build(u.Stub, u.Guard)
+	u.ES = v.Build(u.Stub, u.Guard, u.Stamp)
 	u.Schema = u.ES.Schema()
 	sv := reflect.ValueOf(u.Stub).Elem()
 	for i := 0; i < sv.NumField(); i++ {
@@ -112,7 +112,7 @@ func New(w *core.World, v *Variant, plan *refexec.Plan) *Uni {
 			}
 			ft := ff.Type
 			out0 := ft.Out(0)
-			b := refexec.Binding{Resolver: true, Nilable: nilable(out0), Directive: fd.Directives.ForName("guard") != nil}
+			b := refexec.Binding{Resolver: true, Nilable: nilable(out0), Directive: fd.Directives.ForName("guard") != nil, Stamp: fd.Directives.ForName("stamp") != nil}
 			if fd.Type.Elem != nil && fd.Type.NonNull {
 				// model parameter P2: gqlgen serialises a nil slice at a non-null list position
 				// as [] without error, so plans never ask for null there
@@ -274,6 +274,35 @@ func (u *Uni) Guard(ctx context.Context, obj any, next graphql.Resolver, tag *st
 		return nil, errors.New(u.Plan.DirErrMsg(path))
 	}
 	return next(ctx)
+}
+
+// Stamp is the second field directive of the probe: it lets the rest of the chain run and then
+// marks the value (ints +1000, strings get a trailing "~"), so that the order in which a field's
+// directives wrap each other is visible in the response.
+func (u *Uni) Stamp(ctx context.Context, obj any, next graphql.Resolver) (any, error) {
+	v, err := next(ctx)
+	if err != nil || v == nil {
+		return v, err
+	}
+	switch x := v.(type) {
+	case int:
+		return x + refexec.StampInt, nil
+	case *int:
+		if x == nil {
+			return v, nil
+		}
+		n := *x + refexec.StampInt
+		return &n, nil
+	case string:
+		return x + refexec.StampStr, nil
+	case *string:
+		if x == nil {
+			return v, nil
+		}
+		s := *x + refexec.StampStr
+		return &s, nil
+	}
+	return v, nil
 }
 
 func setScalar(v reflect.Value, j *parsers.J) {
